@@ -439,3 +439,56 @@ def direct_case(r):
                 if bool(got) != exp:
                     return 'isAcquired(%r, %r, t=%.2f) -> %r, reference %r (table %r, U=%.1f)' % (ll, cc, t, got, exp, ref, U), n
     return None, n
+
+
+def direct_delay_case(r):
+    """Requests that are delayed on their way (a prolongation forwarded by a follower and committed after a newer one), and a
+    holder whose node lags behind: the lock table as the up-to-date replica has it (all n commands applied) against the
+    table of a replica that has applied a prefix k <= n, under one clock.  Only acquisitions (never delayed, so every
+    grant is confirmed in time) and prolongations: a client that is listed as the holder by the replica of its node, with
+    a time younger than the auto-unlock time, considers the lock its own - no other client may be in that position on
+    the up-to-date replica at the same instant."""
+    U = r.choice([1.0, 4.0, 10.0])
+    impl = B._ReplLockManagerImpl(U)
+    clients = ['a', 'b', 'c']
+    locks = ['x', 'y'][:r.choice([1, 2])]
+    t = 100.0
+    cmds = []
+    for _ in range(r.randrange(6, 40)):
+        t += r.choice([0.05, 0.2, U / 4.0, U / 3.0, U / 2.0]) * r.random()
+        c = r.choice(clients)
+        if r.random() < 0.4:
+            cmds.append(('acq', r.choice(locks), c, t))
+        else:
+            cmds.append(('pro', c, t))
+    order = list(cmds)
+    for _ in range(r.randrange(0, 4)):
+        idx = [i for i, c in enumerate(order) if c[0] == 'pro']
+        if not idx:
+            break
+        i = r.choice(idx)
+        c = order.pop(i)
+        order.insert(min(len(order), i + r.randrange(1, 8)), c)
+    snaps = [{}]
+    now = 0.0
+    n = 0
+    for c in order:
+        n += 1
+        if c[0] == 'acq':
+            impl.acquire(c[1], c[2], c[3], _doApply=True)
+        else:
+            impl.prolongate(c[1], c[2], _doApply=True)
+        now = max(now, c[-1])
+        tab = dict(getattr(impl, '_ReplLockManagerImpl__locks'))
+        snaps.append(tab)
+        for l in locks:
+            top = tab.get(l)
+            if top is None or not now - top[1] < U:
+                continue
+            for k in range(max(0, n - 10), n):
+                old = snaps[k].get(l)
+                if old is not None and old[0] != top[0] and now - old[1] < U:
+                    return ('at t=%.2f (auto unlock %.1f) the up-to-date table lists %r as holder of %r (time %.2f) while a replica %d commands '
+                            'behind lists %r with time %.2f, still valid: both consider it their own.  Commands in commit order: %r'
+                            % (now, U, top[0], l, top[1], n - k, old[0], old[1], [(x[0],) + tuple(x[1:-1]) + (round(x[-1], 2),) for x in order[:n]])), n
+    return None, n
